@@ -265,8 +265,9 @@ def check_chain(res, facts, trait, rem_m, has_m, touching):
         res.bad(key, "-", "method not found")
     else:
         e = canon(return_expr(b, facts, inline=False))
-        ok = isinstance(e, tuple) and e[0] == "call" and e[1].endswith("saturating_add") and \
-            ((is_a_rem(e[2][0]) and ucall_on(rem_m, "b")(e[2][1])) or (is_a_rem(e[2][1]) and ucall_on(rem_m, "b")(e[2][0])))
+        sa = saturating_sum_operands(e, facts)
+        ok = sa is not None and \
+            ((is_a_rem(sa[0]) and ucall_on(rem_m, "b")(sa[1])) or (is_a_rem(sa[1]) and ucall_on(rem_m, "b")(sa[0])))
         if ok:
             res.ok(key, b.loc(), "a.%s().saturating_add(b.%s())" % (rem_m, rem_m))
         else:
@@ -353,6 +354,48 @@ def check_chain(res, facts, trait, rem_m, has_m, touching):
     return n_b_calls
 
 
+def saturating_sum_operands(e, facts, depth=0):
+    """(x, y) if e is the saturating sum of x and y: `x.saturating_add(y)`, `match x.checked_add(y) { Some(s) => s, None => usize::MAX }`
+    (also `unwrap_or(usize::MAX)`), or a crate helper that is one of these over its two parameters"""
+    from .flow import subst_params
+    e = canon(e)
+    if not isinstance(e, tuple) or not e:
+        return None
+    if e[0] == "call" and e[1].endswith("saturating_add") and len(e[2]) == 2:
+        return e[2][0], e[2][1]
+    if e[0] == "call" and e[1].rsplit("::", 1)[-1] == "unwrap_or" and len(e[2]) == 2 and isinstance(e[2][0], tuple) and e[2][0][0] == "call" \
+            and e[2][0][1].endswith("checked_add") and canon(e[2][1]) == ("const", (1 << 64) - 1):
+        return e[2][0][2][0], e[2][0][2][1]
+    if e[0] == "phi" and len(e) > 1 and isinstance(e[1], tuple) and len(e[1]) == 2 and all(isinstance(a, tuple) for a in e[1]):
+        alts = [canon(a) for a in e[1]]
+        mx = [a for a in alts if a == ("const", (1 << 64) - 1)]
+        pay = [a for a in alts if a[0] == "field" and isinstance(a[1], tuple) and a[1][0] == "variant" and isinstance(a[1][1], tuple)
+               and a[1][1][0] == "call" and a[1][1][1].endswith("checked_add")]
+        if len(mx) == 1 and len(pay) == 1:
+            return pay[0][1][1][2][0], pay[0][1][1][2][1]
+    if e[0] == "call" and depth < 2 and len(e[2]) == 2:
+        cands = facts.by_id.get(e[1], [])
+        if len(cands) == 1 and cands[0].kind in ("fn", "assoc_fn") and len(cands[0].blocks) <= 10:
+            r = return_expr(cands[0], facts, inline=False)          # keeps the phi with its alternatives
+            sub = saturating_sum_operands_raw(r, facts, depth + 1)
+            if sub is not None and {canon(sub[0]), canon(sub[1])} == {("param", 1), ("param", 2)}:
+                x, y = e[2]
+                return (x, y) if canon(sub[0]) == ("param", 1) else (y, x)
+    return None
+
+
+def saturating_sum_operands_raw(r, facts, depth):
+    """like saturating_sum_operands but on an un-canonicalised return expression (a phi still lists its alternatives)"""
+    if isinstance(r, tuple) and r and r[0] == "phi" and isinstance(r[1], tuple) and len(r[1]) == 2:
+        alts = [canon(a) for a in r[1]]
+        mx = [a for a in alts if a == ("const", (1 << 64) - 1)]
+        pay = [a for a in alts if isinstance(a, tuple) and a and a[0] == "field" and isinstance(a[1], tuple) and a[1][0] == "variant" and isinstance(a[1][1], tuple)
+               and a[1][1][0] == "call" and a[1][1][1].endswith("checked_add")]
+        if len(mx) == 1 and len(pay) == 1:
+            return pay[0][1][1][2][0], pay[0][1][1][2][1]
+    return saturating_sum_operands(r, facts, depth)
+
+
 def chain_paths_in_views(facts, mb, bi, name, rem_m, has_m, touching):
     """fallback for a Chain method whose decision logic moved into a helper (`split_advance(a_rem, cnt) -> (Option, Option)`): in
     the view with crate-local helpers inlined, every *feasible* path to the call on `b` (switches on values built earlier on the
@@ -384,6 +427,8 @@ def chain_paths_in_views(facts, mb, bi, name, rem_m, has_m, touching):
                     w = "a.%s() == 0" % rem_m
                 if r[0] == "truth" and is_a_has(r[1]) and r[2] == 0:
                     w = "!a.%s()" % has_m
+                if r[0] in ("le", "eq", "lt") and is_a_rem(r[1]) and mentions_dst(r[2]):
+                    w = "a.%s() <= bytes listed from a" % rem_m
             consumed = False
             for pb in path[:-1]:
                 t = v.blocks[pb]["term"]
